@@ -167,6 +167,11 @@ class DataGen(object):
             elif x < 0.4:
                 items.append(("sep", r.choice(";,")))
         at = ("bin", "+", n(32), ("var", "A")) if r.random() < 0.2 else None
+        if r.random() < 0.3:
+            # juxtaposed items without a separator (legal after a string literal, a closing parenthesis or a $ name)
+            jux = r.choice([[("e", ("str", "J")), ("e", ("var", "A$"))], [("e", ("var", "A$")), ("e", ("str", "K"))],
+                            [("e", ("fn", "CHR$", [n(66)])), ("e", ("var", "A"))], [("e", ("str", "L")), ("e", n(4))]])
+            items = jux + ([("sep", ";")] + items if items and items[0][0] == "e" else items)
         self.add(("print", items, at))
         self.add(P(self.tag()))
 
